@@ -54,7 +54,7 @@ fn replay_seq(v: &Value) -> Verdict {
 
 fn c04_run(ctx: &ShardCtx) -> ShardResult {
     let max_ops = ctx.tier.pick(60, 300);
-    let cases = ctx.tier.pick(8000, 40_000);
+    let cases = ctx.tier.pick(8000, 120_000);
     run_proptest(ctx, stoseq::case_strategy(stoseq::all_kinds(), stoseq::C04_PROFILE, max_ops), cases, 4, |c, stats| {
         let f = stoseq::run_case_dyn(c, &NORMAL)?;
         label(stats, c, &f);
@@ -71,7 +71,7 @@ fn c08_fuzz(ctx: &ShardCtx) -> ShardResult {
     crate::engine::run_fuzz(ctx, "seq_target", "C08")
 }
 
-const FUZZ_RULE: &str = "thorough tier only: libFuzzer (cargo-fuzz, AddressSanitizer) campaigns (120000 executions per shard for histories, 200000 for storage sequences) on a target that decodes bytes (arbitrary::Unstructured) into the same SeqCase type (all 18 storage configurations, dense and sparse pools) and runs the same interpreter and oracles, so silent heap corruption in the unsafe storage code becomes a crash; non-trivial as in the proptest part; counts come from the target";
+const FUZZ_RULE: &str = "thorough tier only: libFuzzer (cargo-fuzz, AddressSanitizer) campaigns (120000 executions per shard for histories, 200000 for storage sequences) on a target that decodes bytes (arbitrary::Unstructured) into the same SeqCase type (all 20 storage configurations, dense and sparse pools) and runs the same interpreter and oracles, so silent heap corruption in the unsafe storage code becomes a crash; non-trivial as in the proptest part; counts come from the target";
 
 pub fn c04() -> Property {
     Property {
@@ -92,7 +92,7 @@ pub fn c04() -> Property {
 
 fn c08_seq_run(ctx: &ShardCtx) -> ShardResult {
     let max_ops = ctx.tier.pick(50, 250);
-    let cases = ctx.tier.pick(6000, 30_000);
+    let cases = ctx.tier.pick(6000, 100_000);
     run_proptest(ctx, stoseq::case_strategy(stoseq::all_kinds(), stoseq::C04_PROFILE, max_ops), cases, 8, |c, stats| {
         let mode = Mode { diff_tag: "C04", check_events: false, fault_at: None, bomb: Bomb::None , ledger_only: true, events_only: false };
         let f = stoseq::run_case_dyn(c, &mode)?;
@@ -113,7 +113,7 @@ fn c08_replay_seq(v: &Value) -> Verdict {
 
 fn c08_hist_run(ctx: &ShardCtx) -> ShardResult {
     let max_ops = ctx.tier.pick(40, 150);
-    let cases = ctx.tier.pick(6000, 25_000);
+    let cases = ctx.tier.pick(6000, 80_000);
     run_proptest(ctx, hist::history_strategy(hist::MIXED_PROFILE, max_ops), cases, 9, |h, stats| {
         let (f, _) = hist::run_history(h, false)?;
         if f.lazy_actions_run > 0 {
@@ -144,7 +144,7 @@ pub fn c08() -> Property {
                 shards: |t: Tier| t.pick(6, 16),
                 run: c08_seq_run,
                 replay: c08_replay_seq,
-                rule: "single-storage sequences as C04 over all 18 configurations (incl. zero-sized components in NullStorage and placeholder slots of DefaultVecStorage), every component value instrumented with a serial + canary; ledger invariant after every step and after dropping the world: no serial destroyed twice, every value read through get/join/slice is live with an intact canary, nothing left alive at the end; non-trivial = an overwrite or remove, a deletion of an entity holding a component, and live components at world drop", exe_env: None
+                rule: "single-storage sequences as C04 over all 20 configurations (incl. two component types without drop glue, zero-sized components in NullStorage and placeholder slots of DefaultVecStorage), every component value instrumented with a serial + canary; ledger invariant after every step and after dropping the world: no serial destroyed twice, every value read through get/join/slice is live with an intact canary, nothing left alive at the end; non-trivial = an overwrite or remove, a deletion of an entity holding a component, and live components at world drop", exe_env: None
             },
             SubCheck {
                 name: "histories",
@@ -172,7 +172,7 @@ fn c12_replay(v: &Value) -> Verdict {
 
 fn c12_body(ctx: &ShardCtx, salt: u64) -> ShardResult {
     let max_ops = ctx.tier.pick(50, 250);
-    let cases = ctx.tier.pick(8000, 30_000);
+    let cases = ctx.tier.pick(8000, 100_000);
     run_proptest(ctx, stoseq::case_strategy(stoseq::tracked_kinds(), stoseq::C12_PROFILE, max_ops), cases, salt, |c, stats| {
         let mode = C12_MODE;
         let f = stoseq::run_case_dyn(c, &mode)?;
@@ -257,7 +257,17 @@ fn proto_strategy(max_prefix: usize) -> impl Strategy<Value = Proto> {
         stoseq::pool_strategy(),
         proptest::collection::vec(fill_op(), 1..=max_prefix),
         destroying_op(),
-        proptest::collection::vec(stoseq::sop_strategy(stoseq::C04_PROFILE), 0..10),
+        // the storage is used on after the caught panic: refills and removals dominate, so that internal
+        // tables left inconsistent by the unwinding are walked again
+        proptest::collection::vec(
+            prop_oneof![
+                5 => (any::<u16>(), 1u32..1000).prop_map(|(s, p)| SOp::Insert(s, p)),
+                4 => any::<u16>().prop_map(SOp::Remove),
+                1 => any::<u16>().prop_map(SOp::GenericRemove),
+                4 => stoseq::sop_strategy(stoseq::C04_PROFILE),
+            ],
+            0..30,
+        ),
     )
         .prop_map(|(kind, pool, mut ops, d, cont)| {
             let at = ops.len();
@@ -278,7 +288,7 @@ fn run_fault(fc: &FaultCase) -> Result<SeqFacts, Violation> {
 }
 
 fn c19_run(ctx: &ShardCtx) -> ShardResult {
-    let cases = ctx.tier.pick(1200, 8000);
+    let cases = ctx.tier.pick(1200, 20_000);
     let max_prefix = ctx.tier.pick(20, 60);
     run_proptest(ctx, proto_strategy(max_prefix), cases, 19, |(seq, at), stats| {
         // dry run: which values does the destroying operation destroy?
@@ -383,7 +393,7 @@ pub fn c19() -> Property {
                 shards: |t: Tier| t.pick(8, 16),
                 run: c19_run,
                 replay: c19_replay,
-                rule: "generated prefix (<=20 ops quick, <=60 thorough) + one destroying operation (clear, delete_all, delete_entity, delete_entities incl. failing batch, maintain with a pending deletion, overwrite, remove, GenericWriteStorage::remove, drain, lazy insert + maintain, entry replace/insert, dropping the world) over all 18 storage configurations; a dry run lists the values the operation destroys, then the identical run is repeated once per such value (all of them, capped at 24 spread evenly incl. first and last) with that value's destructor panicking; after catch_unwind: no serial destroyed twice, every value visible through get/join/slices (this storage and an auxiliary one) is live with an intact canary, the model is re-synchronised from the observable state and a generated continuation of ordinary operations is checked differentially, then the world is dropped (again: no double destruction); leaks after the panic are only counted; non-trivial = the operation destroys >= 2 values and the panic was caught", exe_env: None
+                rule: "generated prefix (<=20 ops quick, <=60 thorough) + one destroying operation (clear, delete_all, delete_entity, delete_entities incl. failing batch, maintain with a pending deletion, overwrite, remove, GenericWriteStorage::remove, drain, lazy insert + maintain, entry replace/insert, dropping the world) over all 20 storage configurations; a dry run lists the values the operation destroys, then the identical run is repeated once per such value (all of them, capped at 24 spread evenly incl. first and last) with that value's destructor panicking; after catch_unwind: no serial destroyed twice, every value visible through get/join/slices (this storage and an auxiliary one) is live with an intact canary, the model is re-synchronised from the observable state and a generated continuation of up to 30 ordinary operations (biased to refills and removals) is checked differentially, then the world is dropped (again: no double destruction); leaks after the panic are only counted; non-trivial = the operation destroys >= 2 values and the panic was caught", exe_env: None
             },
             crate::props_join::c19_changeset_sub(),
         ],
@@ -396,7 +406,7 @@ pub fn c19() -> Property {
 
 fn c13_seq_run(ctx: &ShardCtx) -> ShardResult {
     let max_ops = ctx.tier.pick(40, 150);
-    let cases = ctx.tier.pick(2000, 20_000);
+    let cases = ctx.tier.pick(2000, 60_000);
     run_proptest(ctx, stoseq::restrict_case_strategy(max_ops), cases, 31, |c, stats| {
         let f = stoseq::run_case_dyn(c, &NORMAL)?;
         label(stats, c, &f);
@@ -424,7 +434,7 @@ fn c13_hist_eval(h: &hist::History) -> Result<hist::Facts, Violation> {
 
 fn c13_hist_run(ctx: &ShardCtx) -> ShardResult {
     let max_ops = ctx.tier.pick(40, 120);
-    let cases = ctx.tier.pick(4000, 15_000);
+    let cases = ctx.tier.pick(4000, 50_000);
     run_proptest(ctx, hist::history_strategy(hist::RESTRICT_PROFILE, max_ops), cases, 32, |h, stats| {
         let f = c13_hist_eval(h)?;
         if f.restrict_other_live > 0 {
@@ -450,7 +460,7 @@ pub fn c13() -> Property {
             shards: |t: Tier| t.pick(6, 12),
             run: c13_seq_run,
             replay: replay_seq,
-            rule: "sequences over all 18 storage configurations that change the content (insert, remove, entity deletion / creation, emission toggling) interleaved with restricted joins: lend_join (PairedStorageWriteExclusive) and join (PairedStorageWriteShared) over &mut restrict_mut() with a generated subset of items fetched mutably and written; visited items == storage members in order, item.get() == map value, afterwards the full storage equals the map (only the chosen entities changed, mask unchanged) and on tracked storages the Modified events are exactly the mutably fetched set; non-trivial = >= 3 distinct indices and a strict non-empty subset fetched mutably",
+            rule: "sequences over all 20 storage configurations that change the content (insert, remove, entity deletion / creation, emission toggling) interleaved with restricted joins: lend_join (PairedStorageWriteExclusive) and join (PairedStorageWriteShared) over &mut restrict_mut() with a generated subset of items fetched mutably and written; visited items == storage members in order, item.get() == map value, afterwards the full storage equals the map (only the chosen entities changed, mask unchanged) and on tracked storages the Modified events are exactly the mutably fetched set; non-trivial = >= 3 distinct indices and a strict non-empty subset fetched mutably",
             exe_env: None,
         },
         SubCheck {
